@@ -14,7 +14,15 @@ import (
 	"golang.org/x/tools/go/ssa/ssautil"
 )
 
-const repoDir = "/repo"
+// repoDir is the tree that is checked: /repo for every registered command. GOSE_REPO points the
+// engine at a scratch worktree instead; it is only used by tools/tryseed_wt.sh to try a seeded
+// change without touching /repo (results of such runs are never evidence).
+var repoDir = func() string {
+	if d := os.Getenv("GOSE_REPO"); d != "" {
+		return d
+	}
+	return "/repo"
+}()
 const modulePath = "github.com/ChainSafe/gossamer"
 
 type unitSpec struct {
